@@ -598,6 +598,8 @@ func (b Browse) ServeArchive(w http.ResponseWriter, r *http.Request, dirPath str
 	writer := archiveType.GetWriter()
 	err := writer.Create(bufW)
 	if err != nil {
+		bufW.CloseWithError(err)
+		<-writeComplete
 		return http.StatusInternalServerError, err
 	}
 
@@ -653,6 +655,10 @@ func (b Browse) ServeArchive(w http.ResponseWriter, r *http.Request, dirPath str
 	})
 
 	if err != nil {
+		// The copying goroutine must be finished before this handler
+		// returns: writing to w afterwards crashes the whole process.
+		bufW.CloseWithError(err)
+		<-writeComplete
 		return http.StatusInternalServerError, err
 	}
 
